@@ -209,6 +209,48 @@ func (w *World) userControl(ui int, op *UserOp) {
 			}
 			return ""
 		})
+	case "loop-misuse":
+		// the EventLoop of a connection the application knows: calls without a
+		// target must be refused with their own errors while the engine runs and
+		// with the in-shutdown error afterwards; Schedule is not supported at all
+		if w.loopOf == nil {
+			return
+		}
+		el := w.loopOf
+		w.probes["eventloop-api-without-target"]++
+		type ans struct{ reg, enr, exe, sch error }
+		w.ctl("EventLoop API without a target", func(gnet.Engine) (any, error) {
+			var a ans
+			_, a.reg = el.Register(context.Background(), nil)
+			_, a.enr = el.Enroll(context.Background(), nil)
+			a.exe = el.Execute(context.Background(), nil)
+			a.sch = el.Schedule(context.Background(), nil, time.Second)
+			return a, nil
+		}, func(st string, res any, _ error) string {
+			a := res.(ans)
+			if !errors.Is(a.sch, errorx.ErrUnsupportedOp) {
+				return fmt.Sprintf("Schedule returned %v, want the unsupported-operation error", a.sch)
+			}
+			switch st {
+			case stStopped:
+				for what, e := range map[string]error{"Register": a.reg, "Enroll": a.enr, "Execute": a.exe} {
+					if m := wantErr(e, errorx.ErrEngineInShutdown); m != "" {
+						return what + ": " + m
+					}
+				}
+			case stRunning:
+				if m := wantErr(a.reg, errorx.ErrInvalidNetworkAddress); m != "" {
+					return "Register(nil address): " + m
+				}
+				if m := wantErr(a.enr, errorx.ErrInvalidNetConn); m != "" {
+					return "Enroll(nil connection): " + m
+				}
+				if m := wantErr(a.exe, errorx.ErrNilRunnable); m != "" {
+					return "Execute(nil): " + m
+				}
+			}
+			return ""
+		})
 	case "stopctx":
 		w.userStopCtx(ui, op.N)
 	}
